@@ -116,6 +116,7 @@ structure RState where
   nextMemFid : Nat := 1                 -- fid given to the new active memtable
   nextSstId : Nat := 1
   vlogFid : Nat := 1                    -- fid of the value log created by this Open
+  vlogs : List (Nat × List Chunk) := [] -- the value-log files found (after truncation)
   ops : List FsOp := []                 -- what Open itself did to the directory
   deriving Repr
 
@@ -123,6 +124,12 @@ def maxVer (es : List CEnt) : Nat := es.foldl (fun m e => max m e.ver) 0
 
 def RState.entries (r : RState) : List CEnt :=
   (r.imms.map (·.2)).flatten ++ (r.tables.map (·.ents)).flatten
+
+/-- can the value of `e` be read? (inline, or its value-log record is there) -/
+def RState.readable (r : RState) (e : CEnt) : Bool :=
+  e.vfid == 0 || (match aget e.vfid r.vlogs with
+    | some cs => cs.contains (.vEnt e.key e.ver)
+    | none => false)
 
 /-- `openMemTables`: every `.mem` file in ascending fid order. Returns the immutable
     memtables, the operations performed (truncate to the valid end; an empty memtable's file is
@@ -227,6 +234,7 @@ def recover (ro : Bool) (img : Image) : Except RecErr RState :=
   .ok { tables := tables, imms := imms, nextTxnTs := mv + 1, nextMemFid := nextMem,
         nextSstId := lastFid (tset.map (fun x => (x.1, ()))) + 1,
         vlogFid := vmax + 1,
+        vlogs := vls.map (fun x => (x.1, x.2.chunks)),
         ops := mops ++ kops ++ memOps ++ newMemOps ++ lvlOps ++ vops ++ newV }
 
 end Badger
